@@ -9,7 +9,7 @@ import zlib
 
 from .refcodec import write_archive
 
-BASES = ["dir", "fïle", "日本", "sp ace", "x.y", "UP", "ümlaut", "e😀"]
+BASES = ["dir", "x一", "e\u0300t", "日本", "sp ace", "a\u3000b", "n\U0001F600", "\u0100z", "ü", "k\U00020BB7", ".h", "Q", "f", "g"]   # incl. a code unit with low byte 00 right after a Latin-1 character; astral
 
 
 def shape_names(shape):
@@ -37,6 +37,8 @@ def build(shape, seed=0, password=None, coder="lzma2", header="lzma", packcrc=Fa
         elif m["kind"] == "dir":
             d = None
             files.append({"name": names[i], "kind": "dir", "mtime": 132223104000000000 + i * 10_000_000})
+            if (seed + i) % 3 == 0:
+                files[-1]["attrib"] = None            # a directory without an attribute word: empty stream and not an empty file
         else:
             d = b""
             files.append({"name": names[i], "kind": "empty", "mtime": 132223104000000000 + i * 10_000_000})
